@@ -1,6 +1,7 @@
 #!/bin/sh
 # End-to-end demonstration of REPORT.md findings 1 and 2 with the built binary (no rebuild): usage  demo_findings.sh <scratch dir>
-# Expected output: CONTROL line attributed to mock_ai; the three other runs attribute "AI pending line" to the human committer T.
+# With a binary built BEFORE /repo 5decae7d / 42fcdb81: CONTROL line attributed to mock_ai, the three other runs to the human committer T.
+# With a binary built from the repaired tree all four lines say mock_ai (the remaining case, reset <older commit> -- <paths>, is in demo_e2e.rs).
 set -e
 D=${1:?scratch dir}; GA=${GIT_AI_BIN:-/repo/target/debug/git-ai}
 mkdir -p "$D/home"; export HOME="$D/home" GIT_CONFIG_GLOBAL="$D/home/.gitconfig" GIT_CONFIG_NOSYSTEM=1 GIT_AI_TEST_DB_PATH="$D/home/t.db" GITAI_TEST_DB_PATH="$D/home/t.db"
